@@ -9,11 +9,22 @@
    (B) verified checkers: C04_check_* — whatever [check_dist] / [check_result]
        accept satisfies the statement; Run/RunDijkstra.v evaluates them on the
        model's answer of every generated call (flag compared with the harness).
-   The per-call statement is [result_ok] in Spec/ShortestPathDef.v. *)
+   The per-call statement is [result_ok] in Spec/ShortestPathDef.v.
+   (C) end to end: C04_reachable_* / C04_history_* / C04_constructed_* — for EVERY graph
+       state satisfying the coherence invariant [WF] (Proofs/WFDefs.v), hence every
+       state reachable by any history of add_node / add_edge calls: the structural
+       hypotheses of (A) are theorems (Proofs/DijkstraWF.v), the traversal graph is
+       exactly the arc relation [edge_arc] of the edge store (Spec/EdgeStoreGraph.v), and
+       the entry points return Ok with an answer meeting the per-call statement over
+       that relation ([a_result_ok], Spec/ShortestPathRel.v).  Remaining hypotheses: the
+       property's own premises (non-negative stored weights, existing names, cutoff >= 0)
+       and the size bound [small_adj] of the i32 counter. *)
 From Coq Require Import List Bool ZArith QArith.
 From GV Require Import Base.Outcome Model.GState Model.Query Model.Dijkstra.
 From GV Require Import Spec.ShortestPathDef Spec.ShortestPathCheck Proofs.ShortestPathOk.
 From GV Require Import Base.AMap Proofs.DijkstraLoopOk Proofs.DijkstraModelOk Proofs.DijkstraNamesOk.
+From GV Require Import Model.Creation Spec.History Spec.ShortestPathRel Spec.EdgeStoreGraph.
+From GV Require Import Proofs.WFDefs Proofs.HistoryOk Proofs.DijkstraWF Proofs.DijkstraWFExamples.
 Import ListNotations.
 
 (* ---------------------------------------------------------------- (A) the model *)
@@ -125,3 +136,182 @@ Theorem C04_reported_iff_reachable : forall (g : wgraph) (s : nat) (fo wp : bool
   result_ok g s None None fo wp r -> (exists d, check_dist g s d = true) ->
   (In v (map fst r) <-> reach g s v).
 Proof. exact reported_iff_reachable. Qed.
+
+(* ---------------------------------------------------------------- (C) end to end: every reachable graph *)
+Section Reachable.
+  Context {T A : Type}.
+  Variable teqb : T -> T -> bool.
+  Variable tltb : T -> T -> bool.
+  Hypothesis teqb_spec : forall x y, teqb x y = true <-> x = y.
+  Hypothesis tltb_asym : forall x y, tltb x y = true -> tltb y x = false.
+  Hypothesis tltb_total : forall x y, tltb x y = false -> tltb y x = false -> x = y.
+  Notation gstate := (gstate T A).
+  Notation WF := (@WF T A teqb tltb).
+
+  (* The hypotheses of (A) — [wf_adj], [names_wf], [nonneg] — hold in every WF state with
+     fewer than 2^31-1 adjacency entries whose stored weights are non-negative (weighted
+     mode; hop-count mode needs nothing).  The per-case flags wf_adj_b / names_wf_b /
+     nonneg_b of Run/RunDijkstra.v validate the same facts on the generated cases. *)
+  Theorem C04_WF_gives_search_hypotheses : forall (g : gstate) (weighted : bool),
+    WF g -> small_adj g -> (weighted = true -> weights_nonneg g) ->
+    wf_adj g /\ names_wf teqb g /\ nonneg (wgraph_of weighted (successors_vec g)).
+  Proof. exact (wf_search_hypotheses teqb tltb teqb_spec tltb_total). Qed.
+
+  (* the size bound holds for every graph of at most 46340 nodes (<= n^2 entries) *)
+  Theorem C04_small_adj_of_nodes : forall (g : gstate),
+    WF g -> (Z.of_nat (number_of_nodes g) <= 46340)%Z -> small_adj g.
+  Proof. exact (small_adj_of_nodes teqb tltb). Qed.
+
+  (* The traversal graph the search reads has one row per node and exactly the arcs of
+     the edge store: i -> j of cost c iff an edge is stored between the names of i and j
+     (either orientation when undirected) and c is the cost of the pair. *)
+  Theorem C04_traversal_graph_is_edge_store : forall (g : gstate) (weighted : bool),
+    WF g ->
+    length (wgraph_of weighted (successors_vec g)) = number_of_nodes g /\
+    forall i j c, wedge (wgraph_of weighted (successors_vec g)) i j c <-> edge_arc teqb g weighted i j c.
+  Proof. exact (traversal_graph_is_edge_store teqb tltb teqb_spec tltb_total). Qed.
+
+  (* the cost of a pair: 1 in hop-count mode; in weighted mode, when the stored edges of
+     the pair all carry real weights, the smallest of them (and it is unique) *)
+  Theorem C04_arc_cost_hop : forall (g : gstate) i j c, edge_arc teqb g false i j c -> c = 1%Z.
+  Proof. exact (edge_arc_hop teqb). Qed.
+
+  Theorem C04_arc_cost_is_min_weight : forall (g : gstate) i j x y,
+    WF g -> name_at g i = Some x -> name_at g j = Some y -> between teqb g x y <> [] ->
+    (forall e, In e (between teqb g x y) -> exists z, ew e = Some z) ->
+    exists c, edge_arc teqb g true i j c /\
+              (exists e, In e (between teqb g x y) /\ ew e = Some c) /\
+              (forall e z, In e (between teqb g x y) -> ew e = Some z -> (c <= z)%Z) /\
+              forall c', edge_arc teqb g true i j c' -> c' = c.
+  Proof. exact (edge_arc_min_weight teqb tltb teqb_spec tltb_total). Qed.
+
+  Theorem C04_arcs_symmetric_when_undirected : forall (g : gstate) weighted i j c,
+    WF g -> directed (sp g) = false -> edge_arc teqb g weighted i j c -> edge_arc teqb g weighted j i c.
+  Proof. exact (edge_arc_symmetric teqb tltb teqb_spec tltb_asym tltb_total). Qed.
+
+  (* the per-call statement over the adjacency list and over the edge-store arcs are the same *)
+  Theorem C04_result_ok_edge_store : forall (g : gstate) weighted s t c fo wp r,
+    WF g ->
+    (result_ok (wgraph_of weighted (successors_vec g)) s t c fo wp r <->
+     a_result_ok (edge_arc teqb g weighted) (number_of_nodes g) s t c fo wp r).
+  Proof. exact (result_ok_edge_store teqb tltb teqb_spec tltb_total). Qed.
+
+  (* Total correctness of [dijkstra] on every WF graph: Ok, and the answer meets the whole
+     per-call statement w.r.t. walks over the edge-store arcs. *)
+  Theorem C04_reachable_dijkstra_total : forall (g : gstate) (weighted : bool) (src : nat)
+      (target : option nat) (cutoff : option Q) (fo wp : bool),
+    WF g -> small_adj g -> (weighted = true -> weights_nonneg g) ->
+    cutoff_exceeded cutoff 0 = false -> (src < number_of_nodes g)%nat ->
+    exists r, dijkstra g weighted src target cutoff fo wp = Ok r /\
+              a_result_ok (edge_arc teqb g weighted) (number_of_nodes g) src target cutoff fo wp (answer_of r).
+  Proof. exact (wf_dijkstra_total teqb tltb teqb_spec tltb_total). Qed.
+
+  (* the same for the per-source function all entry points call (fast path when all
+     options are off, full algorithm otherwise) *)
+  Theorem C04_reachable_per_source : forall (g : gstate) (weighted : bool) (si : nat)
+      (target : option T) (ti : option nat) (cutoff : option Q) (fo wp : bool),
+    WF g -> small_adj g -> (weighted = true -> weights_nonneg g) ->
+    (si < number_of_nodes g)%nat -> (target = None <-> ti = None) -> cutoff_exceeded cutoff 0 = false ->
+    exists r, run_from_index g weighted si target ti cutoff fo wp = Ok r /\
+              a_result_ok (edge_arc teqb g weighted) (number_of_nodes g) si ti cutoff fo wp (answer_of r) /\
+              forall k i, In (k, i) r -> (k < number_of_nodes g)%nat.
+  Proof. exact (wf_run_from_index teqb tltb teqb_spec tltb_total). Qed.
+
+  (* single_source on node names: from an existing source (to an existing target, if any)
+     it returns Ok, and the returned map is exactly the name translation of an
+     index-level answer [r] meeting the per-call statement over the edge-store arcs. *)
+  Theorem C04_reachable_single_source : forall (g : gstate) (weighted : bool)
+      (source : T) (target : option T) (cutoff : option Q) (fo wp : bool) (si : nat),
+    WF g -> small_adj g -> (weighted = true -> weights_nonneg g) ->
+    name_at g si = Some source ->
+    (forall t, target = Some t -> In t (names g)) ->
+    cutoff_exceeded cutoff 0 = false ->
+    exists m ti r,
+      single_source teqb g weighted source target cutoff fo wp = Ok m /\
+      match target with Some t => exists i, name_at g i = Some t /\ ti = Some i | None => ti = None end /\
+      a_result_ok (edge_arc teqb g weighted) (number_of_nodes g) si ti cutoff fo wp (answer_of r) /\
+      (forall k i, In (k, i) r -> exists x i', name_at g k = Some x /\ info_names g i i' /\ lookup teqb x m = Some i') /\
+      (forall x i', lookup teqb x m = Some i' -> exists k i, In (k, i) r /\ name_at g k = Some x /\ info_names g i i').
+  Proof. exact (wf_single_source teqb tltb teqb_spec tltb_total). Qed.
+
+  (* The same, read entirely on node names and the edge store — "Dijkstra returns exactly
+     the shortest distances and shortest paths": every name in the returned map is a node,
+     with its exact shortest distance from the source (within the cutoff) and paths that
+     are the name form of shortest paths (none when with_paths=false, exactly one when
+     first_only, ALL of them for positive weights otherwise); and every node within the
+     cutoff — the target, when one is given — is in the map with that distance. *)
+  Theorem C04_reachable_single_source_answer : forall (g : gstate) (weighted : bool)
+      (source : T) (target : option T) (cutoff : option Q) (fo wp : bool) (si : nat),
+    WF g -> small_adj g -> (weighted = true -> weights_nonneg g) ->
+    name_at g si = Some source ->
+    (forall t, target = Some t -> In t (names g)) ->
+    cutoff_exceeded cutoff 0 = false ->
+    exists m,
+      single_source teqb g weighted source target cutoff fo wp = Ok m /\
+      (forall y info, lookup teqb y m = Some info ->
+         exists j, name_at g j = Some y /\
+           a_is_dist (edge_arc teqb g weighted) (number_of_nodes g) si j (sp_distance info) /\
+           within cutoff (sp_distance info) /\
+           (wp = false -> sp_paths info = []) /\
+           (forall p', In p' (sp_paths info) ->
+              exists p, names_of g p p' /\ a_SP (edge_arc teqb g weighted) (number_of_nodes g) si j p) /\
+           (wp = true -> fo = true -> length (sp_paths info) = 1%nat) /\
+           (wp = true -> fo = false -> a_positive (edge_arc teqb g weighted) ->
+              forall p, a_SP (edge_arc teqb g weighted) (number_of_nodes g) si j p ->
+                        exists p', In p' (sp_paths info) /\ names_of g p p')) /\
+      (forall j y d, name_at g j = Some y ->
+         a_is_dist (edge_arc teqb g weighted) (number_of_nodes g) si j d -> within cutoff d ->
+         (target = None \/ target = Some y) ->
+         exists info, lookup teqb y m = Some info /\ sp_distance info = d).
+  Proof. exact (wf_single_source_answer teqb tltb teqb_spec tltb_total). Qed.
+
+  (* positivity of the arcs (premise of the all-paths clause) from the stored weights *)
+  Theorem C04_arcs_positive : forall (g : gstate) (weighted : bool),
+    (weighted = true -> weights_positive g) -> a_positive (edge_arc teqb g weighted).
+  Proof. exact (edge_arc_positive teqb). Qed.
+
+  (* ... hence for every state reached by any history of mutations from Graph::new(specs) ... *)
+  Corollary C04_history_single_source : forall (s : specs) (g : gstate) (weighted : bool)
+      (source : T) (target : option T) (cutoff : option Q) (fo wp : bool) (si : nat),
+    reachable teqb tltb s g -> small_adj g -> (weighted = true -> weights_nonneg g) ->
+    name_at g si = Some source ->
+    (forall t, target = Some t -> In t (names g)) ->
+    cutoff_exceeded cutoff 0 = false ->
+    exists m ti r,
+      single_source teqb g weighted source target cutoff fo wp = Ok m /\
+      match target with Some t => exists i, name_at g i = Some t /\ ti = Some i | None => ti = None end /\
+      a_result_ok (edge_arc teqb g weighted) (number_of_nodes g) si ti cutoff fo wp (answer_of r) /\
+      (forall k i, In (k, i) r -> exists x i', name_at g k = Some x /\ info_names g i i' /\ lookup teqb x m = Some i') /\
+      (forall x i', lookup teqb x m = Some i' -> exists k i, In (k, i) r /\ name_at g k = Some x /\ info_names g i i').
+  Proof.
+    intros s g weighted source target cutoff fo wp si R.
+    exact (wf_single_source teqb tltb teqb_spec tltb_total g weighted source target cutoff fo wp si
+             (WF_reachable teqb tltb teqb_spec tltb_asym tltb_total s g R)).
+  Qed.
+
+  (* ... and for every graph returned by Graph::new_from_nodes_and_edges *)
+  Corollary C04_constructed_dijkstra_total : forall ns es (s : specs) (g : gstate) (weighted : bool) (src : nat)
+      (target : option nat) (cutoff : option Q) (fo wp : bool),
+    new_from_nodes_and_edges teqb tltb ns es s = Ok g ->
+    small_adj g -> (weighted = true -> weights_nonneg g) ->
+    cutoff_exceeded cutoff 0 = false -> (src < number_of_nodes g)%nat ->
+    exists r, dijkstra g weighted src target cutoff fo wp = Ok r /\
+              a_result_ok (edge_arc teqb g weighted) (number_of_nodes g) src target cutoff fo wp (answer_of r).
+  Proof.
+    intros ns es s g weighted src target cutoff fo wp H.
+    exact (wf_dijkstra_total teqb tltb teqb_spec tltb_total g weighted src target cutoff fo wp
+             (WF_reachable teqb tltb teqb_spec tltb_asym tltb_total s g (new_from_reachable teqb tltb teqb_spec ns es s g H))).
+  Qed.
+End Reachable.
+
+(* non-vacuity: a graph built by the transcribed constructor (a history of add_node /
+   add_edge calls) is reachable, WF, small, has non-negative weights, and the entry
+   points return answers on it *)
+Example C04_reachable_hypotheses_nonvacuous :
+  reachable Z.eqb Z.ltb ex_specs ex_g /\ WF Z.eqb Z.ltb ex_g /\
+  small_adj ex_g /\ weights_nonneg ex_g /\ edges_have_weight ex_g = true /\
+  name_at ex_g 0 = Some 5%Z /\ In 1%Z (names ex_g) /\
+  (exists m, single_source Z.eqb ex_g true 5%Z (Some 1%Z) (Some (9 # 2)%Q) false true = Ok m /\ length m = 4%nat) /\
+  (exists mm, multi_source Z.eqb 1 ex_g true [3%Z; 5%Z] None None false true = Ok mm /\ length mm = 2%nat) /\
+  (exists mm, all_pairs Z.eqb 1 ex_g true None None false true = Ok mm /\ length mm = 4%nat).
+Proof. exact reachable_hypotheses_nonvacuous. Qed.
